@@ -27,6 +27,7 @@ import json
 import os
 import random
 import re
+import shutil
 import time
 
 import catalogue
@@ -40,6 +41,7 @@ from vlib import mc, tlc, try_cxx, run_harness, write_ndjson
 
 HARNESS = os.path.join(vlib.HARNESS, "c06_fits.cpp")
 INVARIANTS = ["FTypeOK", "FitsInBounds", "FitsExact", "FitsBoundedWork", "TablesAreSbeImage", "StructIsOperational"]
+PAIR_MOD = 37            # thorough: pairs of fields of different headers, 1 in 37
 CPU_BUDGET_MS = 200      # per call; a normal call costs < 2 us: >= 10^5 x
 
 
@@ -92,7 +94,7 @@ CONFIGS_THOROUGH = [(c, s, ("rel", "chk")[(i + j) % 2], "-O1")
 def shapes_for(m, tier, rnd):
     """Scope selection only: which abstract messages TLC explores."""
     nl = viewpipe.count_levels(m)
-    k = {"quick": 3, "thorough": 8}[tier] if nl > 1 else {"quick": 2, "thorough": 4}[tier]
+    k = {"quick": 3, "thorough": 6}[tier] if nl > 1 else {"quick": 2, "thorough": 3}[tier]
     pool = viewpipe.choose_shapes(nl, 24, rnd)
     order = [0, 5, 4, 1, 3, 2] + list(range(6, len(pool)))
     out = []
@@ -122,16 +124,18 @@ def build(S, cfg, inc, d1, d2):
                    name="c06-%s-%s-%s-%s%s" % (S["package"], comp, std, mode, opt))
 
 
-class _Cached:
-    ok = True
-    violated = None
-    raw = ""
+class TlcOut:
+    """What the check needs from one TLC run (vectors stay on disk)."""
+    def __init__(self, ok, violated, raw, distinct, generated, wall, nvec, path, cached):
+        self.ok, self.violated, self.raw = ok, violated, raw
+        self.distinct, self.generated, self.wall, self.nvec, self.path, self.cached = distinct, generated, wall, nvec, path, cached
 
 
 def tlc_message(S, mi, shapes, sdir, pairs, pairmod, workers):
-    """TLC on one message.  The result depends on the spec, the schema and the
-    scope only (never on /repo), so it is cached content-addressed like the
-    view pipeline's results (VERIF_NOCACHE=1 disables)."""
+    """TLC on one message; the emitted vectors are streamed to an ndjson file.
+    The result depends on the spec, the schema and the scope only (never on
+    /repo), so it is cached content-addressed like the view pipeline's
+    results (VERIF_NOCACHE=1 disables)."""
     stla = viewgen.schema_tla(S)
     body = "SDef == %s\nShapesDef == {%s}\n" % (stla, ",\n ".join(viewpipe.shape_tla(*s) for s in shapes))
     cfg = ("CONSTANT S <- SDef\nCONSTANT MI = %d\nCONSTANT Shapes <- ShapesDef\nCONSTANT Margin = 0\n"
@@ -141,22 +145,26 @@ def tlc_message(S, mi, shapes, sdir, pairs, pairmod, workers):
     cfg += "ACTION_CONSTRAINT EmitFits\n"
     specs = [os.path.join(vlib.SPEC, f) for f in ("Fits.tla", "View.tla", "SbeImage.tla", "Sbe.tla")]
     key = vlib.sha(body, cfg, vlib.file_hash(specs))
-    cpath = os.path.join(vlib.CACHE, "c06", "%s-%d-%s.json" % (S["package"], mi, key))
-    if os.path.exists(cpath) and os.environ.get("VERIF_NOCACHE") != "1":
-        j = json.load(open(cpath))
-        r = _Cached()
-        r.records, r.distinct, r.generated, r.wall, r.cached = j["records"], j["distinct"], j["generated"], j["wall"], True
-        return r
+    base = os.path.join(vlib.ensure_dir(os.path.join(vlib.CACHE, "c06")), "%s-%d-%s" % (S["package"], mi, key))
+    if os.path.exists(base + ".json") and os.path.exists(base + ".ndjson") and os.environ.get("VERIF_NOCACHE") != "1":
+        j = json.load(open(base + ".json"))
+        return TlcOut(True, None, "", j["distinct"], j["generated"], j["wall"], j["vectors"], base + ".ndjson", True)
     d = os.path.join(sdir, "mc-%d" % mi)
     mc(d, "MC_Fits", "Fits", body, cfg)
-    r = tlc("MC_Fits", cwd=d, workers=workers, xmx="3g", timeout=1500)
-    r.cached = False
+    tmp = base + ".tmp%d" % os.getpid()
+    cnt = [0]
+    with open(tmp, "w") as f:
+        def on_record(rec):
+            f.write(json.dumps(rec, separators=(",", ":")) + "\n")
+            cnt[0] += 1
+        r = tlc("MC_Fits", cwd=d, workers=workers, xmx="3g", timeout=2400, on_record=on_record)
+    out = TlcOut(r.ok, r.violated, r.raw, r.distinct, r.generated, r.wall, cnt[0], base + ".ndjson", False)
     if r.ok:
-        vlib.ensure_dir(os.path.dirname(cpath))
-        tmp = cpath + ".tmp%d" % os.getpid()
-        vlib.write(tmp, json.dumps({"records": r.records, "distinct": r.distinct, "generated": r.generated, "wall": r.wall}))
-        os.replace(tmp, cpath)
-    return r
+        os.replace(tmp, base + ".ndjson")
+        vlib.write(base + ".json", json.dumps({"distinct": r.distinct, "generated": r.generated, "wall": r.wall, "vectors": cnt[0]}))
+    else:
+        os.remove(tmp)
+    return out
 
 
 def sample_of(x):
@@ -185,7 +193,10 @@ def run(v, tier, seed):
             nl = viewpipe.count_levels(m)
             shapes = shapes_for(m, tier, random.Random("%s-%s-%d" % (seed, S["package"], mi)))
             jobs.append(("tlc", S, mi, shapes, 2 if nl > 2 else 1))
-        for cfg in configs:
+        for ci, cfg in enumerate(configs):
+            # thorough: the full matrix on the little-endian schemas, every third configuration on the big-endian twins
+            if thorough and S.get("byteOrder") == "bigEndian" and ci % 3 != 0:
+                continue
             jobs.append(("cxx", S, cfg))
     # big TLC jobs first so that they do not end up last in the pool
     jobs.sort(key=lambda j: (0 if j[0] == "tlc" and j[4] == 2 else 1 if j[0] == "cxx" else 2))
@@ -196,7 +207,7 @@ def run(v, tier, seed):
         if job[0] == "cxx":
             return job, build(S, job[2], inc, d1, d2)
         _, _, mi, shapes, workers = job
-        return job, tlc_message(S, mi, shapes, sdir, thorough, 11 if thorough else 0, workers)
+        return job, tlc_message(S, mi, shapes, sdir, thorough, PAIR_MOD if thorough else 0, workers)
 
     vectors = {S["package"]: [] for S in schemas}
     bins = {S["package"]: [] for S in schemas}
@@ -217,7 +228,7 @@ def run(v, tier, seed):
             continue
         mname = S["messages"][job[2] - 1]["name"]
         v.part("tlc_%s_%s" % (name, mname), shapes=len(job[3]), distinct=r.distinct, generated=r.generated,
-               vectors=len(r.records), wall_s=round(r.wall, 1), from_cache=r.cached)
+               vectors=r.nvec, wall_s=round(r.wall, 1), from_cache=r.cached)
         if not r.ok:
             v.violation("spec/%s/%s/%s" % (name, mname, r.violated),
                         "Fits.tla violates %s in the model itself (the reference walk disagrees with its own "
@@ -225,14 +236,17 @@ def run(v, tier, seed):
             continue
         states += r.distinct
         trans += r.generated
-        vectors[name] += r.records
+        vectors[name].append((job[2], r.path, r.nvec))
 
     # ---- 2. replay ---------------------------------------------------------
     runs = []
     for S in schemas:
         name = S["package"]
         vp = os.path.join(prep[name][1], "vectors.ndjson")
-        write_ndjson(vp, vectors[name])
+        with open(vp, "wb") as out:
+            for _, path, _ in sorted(vectors[name]):
+                with open(path, "rb") as f:
+                    shutil.copyfileobj(f, out)
         for cfg, b in bins[name]:
             runs.append((name, cfg, b, vp))
 
@@ -259,14 +273,21 @@ def run(v, tier, seed):
             v.violation(m["sig"], "[%s %s %s %s, schema %s] %s" % (cfg + (name, m["desc"])),
                         {"harness": "c06_fits", "schema": name, "config": list(cfg), "case": m["case"]})
 
-    nvec = sum(len(x) for x in vectors.values())
+    nvec = sum(n for files in vectors.values() for _, _, n in files)
     samples = []
     for name in vectors:
-        for want in (("message", "none"), ("group", None), ("message", None)):
-            for x in vectors[name]:
-                if x["view"] == want[0] and (want[1] is None or x["cor"] == want[1]) and (want[1] or x["cor"] != "none") and x["n"] > 12:
-                    samples.append(sample_of(x))
-                    break
+        wants = [("message", True), ("group", False), ("message", False)]
+        for _, path, _ in sorted(vectors[name], reverse=True):
+            with open(path) as f:
+                for i, line in enumerate(f):
+                    if i > 4000 or not wants:
+                        break
+                    x = json.loads(line)
+                    for w in wants:
+                        if x["view"] == w[0] and (x["cor"] == "none") == w[1] and x["n"] > 12:
+                            samples.append(sample_of(x))
+                            wants.remove(w)
+                            break
         if len(samples) >= 6:
             break
     v.add(states=states, transitions=trans, evaluations=evals, distinct_nontrivial=sum(distinct.values()),
@@ -275,7 +296,7 @@ def run(v, tier, seed):
                "blockLength/numInGroup/length field with {0,1,fit-1,fit+1,type max}%s or none, n in 0..size+8) "
                "explored by TLC; distinct = distinct (view, n, first n bytes) inputs actually presented to "
                "size_bytes_checked, as counted by the harness (per schema, max over configurations)"
-               % (" and pairs of overwrites (all pairs inside one dimension, 1 in 11 of the others)" if thorough else ""),
+               % (" and pairs of overwrites (all pairs inside one dimension, 1 in %d of the others)" % PAIR_MOD if thorough else ""),
           exhaustive=False)
     v.assumptions += ["little-endian host", "TLC and the installed compilers are trusted",
                       "scope: tools/catalogue.py view schemas + the zero-length / 64-bit schemas of this module, seeded shapes",
